@@ -39,3 +39,24 @@ fn limit_applies_to_the_answer_only() {
     assert_eq!(r.len(), 2);
     assert!(r.iter().all(|x| [t(&[1]), t(&[3]), t(&[5])].contains(x)), "{r:?}");
 }
+
+#[test]
+fn negation_between_two_mutually_recursive_groups_written_top_down() {
+    // the b group reads the a group through negation and is written above it
+    let mut e = IQLEngine::new();
+    e.add_tuples("n", (0..4).map(|i| t(&[i])).collect());
+    e.add_tuples("start", vec![t(&[0])]);
+    e.add_tuples("edge", vec![t(&[0, 1]), t(&[1, 2])]);
+    let mut r = e.execute_tuples("b1(X) <- n(X), !a1(X)\nb1(X) <- b2(X)\nb2(X) <- b1(X)\na1(X) <- start(X)\na1(Y) <- a2(X), edge(X, Y)\na2(X) <- a1(X)\nout(X) <- b1(X)\n").expect("query");
+    r.sort(); r.dedup();
+    assert_eq!(r, vec![t(&[3])]);
+}
+#[test]
+fn count_over_a_group_written_top_down() {
+    let mut e = IQLEngine::new();
+    e.add_tuples("start", vec![t(&[0])]);
+    e.add_tuples("edge", vec![t(&[0, 1]), t(&[1, 2]), t(&[2, 3])]);
+    let mut r = e.execute_tuples("out(C) <- cnt(C)\ncnt(count<X>) <- reach(X)\nreach(X) <- start(X)\nreach(Y) <- hop(X), edge(X,Y)\nhop(X) <- reach(X)\nq(C) <- out(C)\n").expect("query");
+    r.sort(); r.dedup();
+    assert_eq!(r, vec![t(&[4])]);
+}
